@@ -187,8 +187,10 @@ func DecodeWTF8Rune(s string) (rune, int) {
 		return utf8.RuneError, 1
 	}
 
+	// A truncated sequence is an error that consumes one byte (a width of zero
+	// is only for the empty string, otherwise callers would never advance)
 	if n < sz {
-		return utf8.RuneError, 0
+		return utf8.RuneError, 1
 	}
 
 	s1 := s[1]
